@@ -175,15 +175,31 @@ let verdict case impl =
       late = (fun i -> (sd i).late) } in
     (* the initial cell is the result metadata of the PREPARED answer Session::prepare picked: with the
        id of version 0 if that node has the extension, without an id otherwise (C14_prepare_on_all) *)
-    let init_of (with_id : bool) : nat -> meta = fun i ->
-      let (mid, cols) = ver i N0 in
-      meta_of_cols (if with_id then Some mid else None) (if (sd i).late then [] else cols) in
+    (* version a node is at when Session::prepare runs: in a mixed cluster the nodes WITHOUT the extension
+       start at version 1 (where the statement has one), so that the columns of the fresh statement tell
+       which kind of node its PREPARED came from *)
+    let plain_ver i = if mixed && Array.length (sd i).vers >= 2 then n_of_int 1 else N0 in
+    (* the initial cell is the result metadata of the PREPARED answer Session::prepare kept
+       (C14_prepare_on_all): from an extension node = id and columns of version 0; from a plain node =
+       no id, columns of the plain nodes' version *)
+    let init_from (choice : int -> bool) : nat -> meta = fun i ->
+      if choice (int_of_nat i) then
+        let (mid, cols) = ver i N0 in meta_of_cols (Some mid) (if (sd i).late then [] else cols)
+      else
+        let (_, cols) = ver i (plain_ver i) in meta_of_cols None (if (sd i).late then [] else cols) in
     let nodes : nat -> node = fun nd ->
-      { n_ext = ext_of (int_of_nat nd); n_prep = (fun _ -> true); n_ver = (fun _ -> N0); n_salt = (fun _ -> N0) } in
+      { n_ext = ext_of (int_of_nat nd); n_prep = (fun _ -> true);
+        n_ver = (fun i -> if ext_of (int_of_nat nd) then N0 else plain_ver i); n_salt = (fun _ -> N0) } in
     (* observations *)
     let obs = ref (List.filter (fun t -> t <> "-") impl) in      (* "-" = a history without client calls *)
     let next_obs () = match !obs with x :: r -> obs := r; x | [] -> raise (Notrun "runner produced fewer observations than the case has calls") in
     let forced = ref false and has_par = ref false in
+    let observed_init : col list array option =
+      (match !obs with
+       | t :: r when String.length t > 2 && String.sub t 0 2 = "J/" ->
+         obs := r;
+         Some (Array.of_list (List.map cols_of_string (fields ';' (String.sub t 2 (String.length t - 2)))))
+       | _ -> None) in
     let parse_obs node =
       match fields '/' (next_obs ()) with
       | ["O"; nd; xs; out] ->
@@ -386,14 +402,34 @@ let verdict case impl =
                  else
                    Printf.sprintf "viol class=stale-cached-metadata-without-ext ops=%s (no extension, cached metadata requested, re-preparation announced other columns)" (idx hits))
             | (i, v) -> Printf.sprintf "error spec-system op=%d %s" (int_of_nat i) (show_v v))) in
-    (* mixed cluster: either kind of node may have answered the PREPARE that Session::prepare kept *)
-    let candidates = List.sort_uniq compare (Array.to_list exts) in
-    let verdicts = List.map (fun e -> judge (init_of e)) (List.rev candidates) in
-    (match List.filter (fun v -> String.length v >= 2 && String.sub v 0 2 = "ok") verdicts with
-     | v :: _ -> v
-     | [] -> (match List.filter (fun v -> String.length v >= 10 && String.sub v 0 10 = "viol class") verdicts with
-         | v :: _ -> v
-         | [] -> List.hd verdicts))
+    (* which PREPARED answer Session::prepare kept, per statement.  Uniform cluster: no choice.  Mixed
+       cluster: the column specs observed right after the prepare decide (extension nodes are at version
+       0, plain nodes at version 1); where the two answers have the same columns both are tried.  Columns
+       that no node announced: the sentence "at preparation" fails. *)
+    let choices_of i : bool list =
+      if not mixed then [exts.(0)]
+      else
+        let c_ext = (init_from (fun _ -> true) (nat_of_int i)).m_cols
+        and c_plain = (init_from (fun _ -> false) (nat_of_int i)).m_cols in
+        (match observed_init with
+         | Some a when i < Array.length a ->
+           let o = a.(i) in
+           (if o = c_ext then [true] else []) @ (if o = c_plain then [false] else [])
+         | _ -> raise (Notrun "mixed cluster without the initial column specs")) in
+    let per_stmt = List.init ns choices_of in
+    if List.exists (fun l -> l = []) per_stmt then
+      "viol the column specs of a freshly prepared statement are not what any node announced at preparation"
+    else begin
+      let rec product = function
+        | [] -> [[]]
+        | l :: r -> List.concat_map (fun x -> List.map (fun t -> x :: t) (product r)) l in
+      let verdicts = List.map (fun ch -> judge (init_from (fun i -> if i < List.length ch then List.nth ch i else true))) (product per_stmt) in
+      (match List.filter (fun v -> String.length v >= 2 && String.sub v 0 2 = "ok") verdicts with
+       | v :: _ -> v
+       | [] -> (match List.filter (fun v -> String.length v >= 10 && String.sub v 0 10 = "viol class") verdicts with
+           | v :: _ -> v
+           | [] -> List.hd verdicts))
+    end
   | "P" :: exts :: stok :: optoks ->
     (* Session::prepare against nodes in different states *)
     let nnodes = String.length exts in
